@@ -12,6 +12,10 @@ CHECKS = {
    "Seeded simulation of real directory listings over a scratch tree containing one or two unservable entries (dangling/looping symlink, FIFO, socket, names the security filter rejects, stat failing with ENOENT/EACCES/EIO after enumeration, deletion injected exactly between enumeration and the n-th stat/open of that entry) at varied sort positions, through every listing protocol, both directory handlers and both server types. The listing must succeed and every other entry must equal the reference listing. Fault kinds x positions are enumerated by index for the first runs and sampled afterwards.",
    "Trusts the simulator; deletion races are injected at seam calls rather than by a free-running actor; FIFO open is modelled as blocking for ever.",
    "deterministic simulation: per-entry fault injection at the stat/open/listdir seam (incl. vanish-at-call), real special files, reference-model comparison of parsed listings"),
+ "C20": ("fault_enumeration", "3.10",
+   "Seeded simulation of one real connection whose k-th sendall fails (EPIPE, ECONNRESET, single-argument timeouts as ssl raises them, EAGAIN from SO_SNDTIMEO, ETIMEDOUT), optionally after a partial send, with every later send failing too; k is derived from the fault-free send count of the same request. A sweep covers every (response kind, protocol) pair of a fixed world with k in {0,1,last} (quick) or every k and error class (thorough); seeded runs vary sizes, k, class, partial sends and server type. Checked: accept loop and socketserver.handle_error untouched, probe connection served, log record with client address and the injected class and no foreign EXCEPTION class, all seam-opened files closed and /proc/self/fd unchanged after the worker and a GC pass.",
+   "Trusts the simulator; send failures are injected at sendall() granularity; exception classes already logged by the fault-free run of the same request are not attributed to the fault.",
+   "deterministic simulation: send-fault injection at every write index of the simulated socket, open-file table + fd accounting, log oracle"),
 }
 
 NA = {
@@ -34,7 +38,6 @@ PENDING = {
  "C10": "claimed in DESIGN.md; check not built yet in this revision",
  "C14": "claimed in DESIGN.md; check not built yet in this revision",
  "C19": "claimed in DESIGN.md; check not built yet in this revision",
- "C20": "claimed in DESIGN.md; check not built yet in this revision",
 }
 
 def main():
